@@ -363,6 +363,16 @@ def sorted_by(cols, ks, rows):
         return None
 
 
+def none_next_to_missing(cols, rows, idx):
+    """some index column shows both a None cell and a Missing cell (they are == each other, yet None < Missing holds)"""
+    for c in idx:
+        if c in cols:
+            cells = [r[cols.index(c)] for r in rows]
+            if any(x is None for x in cells) and any(is_missing(x) for x in cells):
+                return True
+    return False
+
+
 def bcell(v):
     """a cell up to Python's `==` (2 == 2.0, Missing == None): what (B) compares; (A) compares exact types"""
     if v is None or is_missing(v):
@@ -414,14 +424,47 @@ def build_init(init):
 
 
 def insert_payload(op):
+    """the data handed to insert.  `own` (Phase 6) says how the caller owns it: "shared" = members that read the same are ONE
+    object (the same row list / dict twice in the list, the same list as two columns of a mapping); "reuse" = the caller clears
+    its lists / dicts right after the call (a buffer it fills again), see Runner.do_insert"""
     sh = op["shape"]
     if sh == "rows":
-        return [[to_py(x) for x in r] for r in op["rows"]]
-    if sh == "dicts":
-        return [{c: to_py(v) for c, v in d} for d in op["rows"]]
-    if sh == "cols":
-        return {c: [to_py(x) for x in v] for c, v in op["cols"]}
-    raise ValueError(sh)
+        data = [[to_py(x) for x in r] for r in op["rows"]]
+    elif sh == "dicts":
+        data = [{c: to_py(v) for c, v in d} for d in op["rows"]]
+    elif sh == "cols":
+        data = {c: [to_py(x) for x in v] for c, v in op["cols"]}
+    else:
+        raise ValueError(sh)
+    if op.get("own") == "shared":
+        seen = {}
+        if sh == "cols":
+            data = {c: seen.setdefault(own_key(v), v) for c, v in data.items()}
+        else:
+            data = [seen.setdefault(own_key(x), x) for x in data]
+    return data
+
+
+def own_key(x):
+    """reads the same = same cells of the same types in the same places (repr alone would take Missing for None)"""
+    return repr([(k, type(c).__name__, c) for k, c in (x.items() if isinstance(x, dict) else enumerate(x))])
+
+
+def freeze(x):
+    """what a caller-owned list / dict holds, cell for cell (exact types), for comparing before / after"""
+    if isinstance(x, list):
+        return ["L"] + [freeze(y) for y in x]
+    if isinstance(x, dict):
+        return ["D"] + [[k, freeze(v)] for k, v in x.items()]
+    return from_py(x)
+
+
+def scribble(data):
+    """the caller empties the lists / dicts it had handed to insert (as one does with a buffer that is filled again)"""
+    for x in (list(data.values()) if isinstance(data, dict) else list(data)):
+        if isinstance(x, (list, dict)):
+            x.clear()
+    data.clear()
 
 
 def where_call(t, op, cols, live=None, watch=None):
@@ -658,6 +701,7 @@ class Runner:
         self.poisoned = set()  # stale mode: objects left alone after a mutation through another object raised
         self.tainted = set()   # objects another object has mutated under (not looked at by the Phase 5 view observation)
         self.views = {}        # table id -> view_obs of the live, untainted objects at the end of the run
+        self.given = []        # (op number, shape, object, freeze(object)) of every payload handed to insert and not scribbled on
 
     def resolve(self, op, tables):
         """a probe collection given as {"col": [table id, column]} is the live column `tables[id][column]` (a list of a table
@@ -752,6 +796,8 @@ class Runner:
                         pass
             nfails = len(self.fails)
             getattr(self, "do_" + k)(n, op, t, tables, cols, rows, idx)
+            if self.given and not (k == "insert" and self.given[-1][0] == n and len(self.given) == 1):
+                self.check_given(n, k)
             if k in ("insert", "index"):
                 self.tainted |= set(range(len(tables))) - {op["t"]}
             if case.get("stale") and k in ("insert", "index") and tables[op["t"]] is None:
@@ -853,7 +899,48 @@ class Runner:
 
     # ---- operations
     def do_insert(self, n, op, t, tables, cols, rows, idx):
+        """Phase 6: the data belongs to the caller.  insert must leave it as it was (`insert-changes-its-argument`), no later
+        operation on any table may change it (`check_given`), and what the table shows must not follow what the caller does with
+        its own lists / dicts afterwards (`insert:table-follows-the-callers-data`)"""
         payload = insert_payload(op)
+        was = freeze(payload)
+        own = op.get("own")
+        if own:
+            self.tags.append("insert:own:%s:%s" % (own, op["shape"]))
+            if own == "shared" and len({id(x) for x in (payload.values() if isinstance(payload, dict) else payload)}) < len(payload):
+                self.tags.append("insert:own:same-object-twice:" + op["shape"])
+        self._do_insert(n, op, t, tables, cols, rows, idx, payload)
+        if freeze(payload) != was:
+            self.fail("op #%d insert(%s) changed the data it was given: before %s, after %s" % (n, op["shape"], was, freeze(payload)), "insert-changes-its-argument")
+            return
+        if tables[op["t"]] is None:
+            return
+        if own == "reuse":
+            try:
+                shown = snap(t)
+            except Exception:  # noqa
+                return
+            scribble(payload)
+            try:
+                after = snap(t)
+            except Exception as e:  # noqa
+                after = ("raised", repr(e))
+            if after != shown:
+                self.fail("op #%d insert(%s): after the caller emptied the lists / dicts it had given, the table shows %s; before it showed %s %s"
+                          % (n, op["shape"], after[1][:12] if isinstance(after[1], list) else after, shown[0], shown[1][:12]), "insert:table-follows-the-callers-data")
+        else:
+            self.given.append((n, op["shape"], payload, was))
+
+    def check_given(self, n, k):
+        """data handed to an earlier insert is still the caller's: no operation on any table changes it"""
+        for m, sh, payload, was in self.given:
+            if freeze(payload) != was:
+                self.fail("op #%d %s changed the data the caller had given to insert (op #%d, %s): it was %s, now %s" % (n, k, m, sh, was, freeze(payload)),
+                          k + "-changes-data-given-to-an-earlier-insert")
+                self.given = [g for g in self.given if g[0] != m]
+                return
+
+    def _do_insert(self, n, op, t, tables, cols, rows, idx, payload):
         sh = op["shape"]
         self.tags.append("insert:" + sh)
         # plain meaning: the new rows, cells of columns a row does not mention are Missing; new columns are Missing in old rows
@@ -1017,6 +1104,8 @@ class Runner:
         f["dupidx"] = len(set(idx)) < len(idx)
         f["stale"] = bool(idx) and srt is not True
         f["empty"] = len(rows) == 0
+        # finding C17-F21: an index column that holds a None cell next to Missing cells (None == Missing, but None < Missing)
+        f["none_missing_idx"] = none_next_to_missing(cols, rows, idx)
         if op.get("pred"):
             f["ops"].append("rowpred")
             f["paths"].append("scan")
@@ -1072,6 +1161,8 @@ class Runner:
                 return "where-empty-indexed-IndexError"
             if "match" in f["ops"] and not cfg["matchEmpty"]:
                 return "where-match-empty-IndexError"
+        if f.get("none_missing_idx") and "bisect" in f["paths"] and outcome == "rows":
+            return "where-index-column-holds-None-next-to-Missing"
         if f.get("leak") and not cfg["localOp"]:
             return "where-operator-leaks-to-later-keyword"
         if f.get("notin_dict") and not cfg["notinKey"]:
@@ -1364,6 +1455,27 @@ class Gen:
         return [self.cell(c) for c in cols]
 
     def insert(self, t, cols, known):
+        # Phase 6: the caller's ownership of the data (see insert_payload): 22 % "reuse", 18 % "shared" - then some members repeat
+        op, cols2 = self._insert(t, cols, known)
+        r = self.r
+        own = r.wchoice([(60, None), (22, "reuse"), (18, "shared")])
+        if own:
+            op["own"] = own
+        if own == "shared":
+            if op["shape"] == "cols" and len(op["cols"]) >= 2 and r.chance(0.8):
+                # two (or all) columns get the very same list: their alphabets differ, so the cells of one are given to the other(s)
+                src = r.choice(op["cols"])[1]
+                for c in op["cols"]:
+                    if r.chance(0.7):
+                        c[1] = list(src)
+            elif op["shape"] != "cols" and len(op["rows"]) >= 2 and r.chance(0.8):
+                src = r.choice(op["rows"])
+                op["rows"] = [list(src) if r.chance(0.5) else x for x in op["rows"]]
+                if op["shape"] == "dicts":
+                    cols2 = list(cols) + sorted({c for d in op["rows"] for c, _ in d} - set(cols))
+        return op, cols2
+
+    def _insert(self, t, cols, known):
         r = self.r
         n = r.choice([0, 1, 1, 2, 3, 4, 6])
         sh = r.wchoice([(4, "rows"), (4, "dicts"), (2, "cols")])
@@ -1804,7 +1916,19 @@ def plain_snippet(case):
                 arg = "[%s]" % ", ".join("{%s}" % ", ".join("%r: %s" % (c, lit(v)) for c, v in d) for d in op["rows"])
             else:
                 arg = "{%s}" % ", ".join("%r: [%s]" % (c, ", ".join(lit(x) for x in v)) for c, v in op["cols"])
+            if op.get("own"):
+                dn = "data_%d" % len(out)
+                out.append("%s = %s" % (dn, arg))
+                if op["own"] == "shared":
+                    out.append("key = lambda x: repr([(k, type(c).__name__, c) for k, c in (x.items() if isinstance(x, dict) else enumerate(x))])")
+                    out.append("seen = {}; %s = %s   # members that read the same are one object" % (
+                        dn, "{c: seen.setdefault(key(v), v) for c, v in %s.items()}" % dn if op["shape"] == "cols" else "[seen.setdefault(key(x), x) for x in %s]" % dn))
+                arg = dn
             out.append("%s.insert(%s); print(list(%s))" % (t, arg, t) + "".join("; print('t%d now shows', list(t%d))" % (j, j) for j, sib in p.get("aliases", []) if sib))
+            if op.get("own"):
+                out.append("print('the data given to insert is now', %s)" % arg)
+            if op.get("own") == "reuse":
+                out.append("[x.clear() for x in (list(%s.values()) if isinstance(%s, dict) else list(%s))]; %s.clear(); print('after the caller emptied its data the table shows', list(%s))" % (arg, arg, arg, arg, t))
         elif k == "index":
             out.append("%s.index(%s); print(%s.indexes, list(%s))" % (t, ", ".join(repr(c) for c in op["cols"]), t, t)
                        + "".join("; print('t%d now shows', t%d.indexes, list(t%d))" % (j, j, j) for j, sib in p.get("aliases", []) if sib))
@@ -1970,6 +2094,57 @@ def ops_lean(info):
             "end Coba.Generated.C17\n"
             % (", ".join(map(q, info["literal"])), ", ".join(map(q, info["keys"])), ", ".join(map(q, info["nobisect"])),
                ",\n   ".join(row(r) for r in info["rows"])))
+
+
+# ---- translator (Phase 6): every sort the Table class makes, read off the source with `ast`
+def extract_sorts(repo):
+    """every `sorted(...)` call and every in-place `.sort(...)` call inside `class Table`, in source order:
+    (method it stands in, what is sorted, key, anything else given - `reverse=`, more arguments)"""
+    import ast
+    src = open(os.path.join(repo, "coba/results/core.py"), encoding="utf-8").read()
+    tree = ast.parse(src)
+    table = next(n for n in ast.walk(tree) if isinstance(n, ast.ClassDef) and n.name == "Table")
+    sites = []
+    for fn in table.body:
+        if not isinstance(fn, ast.FunctionDef):
+            continue
+        for n in ast.walk(fn):
+            if not isinstance(n, ast.Call):
+                continue
+            if isinstance(n.func, ast.Name) and n.func.id == "sorted":
+                what = ast.unparse(n.args[0]) if n.args else ""
+                extra = len(n.args) != 1
+            elif isinstance(n.func, ast.Attribute) and n.func.attr == "sort":
+                what = "in place: " + ast.unparse(n.func.value)
+                extra = len(n.args) != 0
+            else:
+                continue
+            key = "none"
+            for kw in n.keywords:
+                if kw.arg == "key":
+                    v = kw.value
+                    if (isinstance(v, ast.Attribute) and v.attr == "__getitem__" and isinstance(v.value, ast.Subscript)
+                            and ast.unparse(v.value.value) == "self._data"):
+                        key = "cell of column " + ast.unparse(v.value.slice)
+                    else:
+                        key = ast.unparse(v)
+                elif not (kw.arg == "reverse" and isinstance(kw.value, ast.Constant) and kw.value.value is False):
+                    extra = True        # (`reverse=False` says what the default says)
+            sites.append((n.lineno, n.col_offset, fn.name, what, key, extra))
+    sites.sort()
+    return [x[2:] for x in sites]
+
+
+def sorts_lean(sites, err=None):
+    q = lambda x: '"%s"' % x.replace("\\", "\\\\").replace('"', '\\"')
+    return ("-- GENERATED by harness/props/c17.py (pre_build) from coba/results/core.py on every run; do not edit.\n"
+            + ("-- the sort calls could not be read off the source (%s)\n" % err if err else "")
+            + "namespace Coba.Generated.C17\n"
+            "/-- every `sorted(...)` / `.sort(...)` call of `class Table`, in source order: (method, what is sorted, key, `reverse=` or other arguments given) -/\n"
+            "def sortSites : List (String × String × String × Bool) :=\n  [%s]\n"
+            "def sortSitesExtracted : Bool := %s\n"
+            "end Coba.Generated.C17\n"
+            % (",\n   ".join("(%s, %s, %s, %s)" % (q(m), q(w), q(k), "true" if e else "false") for m, w, k, e in sites), "false" if err else "true"))
 
 
 # ---- round g: cells of the library's own value types (HashableDense / HashableSparse / Categorical), (B) only
@@ -2322,6 +2497,71 @@ def lib_eval(case):
     return {"fails": fails, "nontrivial": bool(index), "tags": tags, "impl": {"indexes": list(table.indexes), "rows": len(before)}, "model": None}
 
 
+# ---- round i (im2): what Environments.from_result DELIVERS for every group of the interactions table vs a plain scan of it
+# case = {"fromres": {"shift": k}}: groups (environment, learner, evaluator) of 3-4 rows; the columns `note` / `extra` / `reward` are
+# Missing on the first row of a group only, on the last only, in the middle, on every row of a group, on none - which group gets
+# which pattern is rotated by k.  (B) only.
+FROMRES_PATTERNS = ["first", "last", "middle", "all", "none", "first-two", "all-but-first"]
+
+
+def fromres_result(shift):
+    from coba.results import Result, Table, Missing
+    groups = [(e, l, v) for e in (0, 1) for l in (0, 1) for v in ((0, 1) if e == 1 else (0,))]
+    rows = []
+    for g, (e, l, v) in enumerate(groups):
+        n = 3 + (g + shift) % 2
+        def cell(pattern, i, value):
+            gone = {"first": i == 0, "last": i == n - 1, "middle": 0 < i < n - 1, "all": True, "none": False, "first-two": i < 2, "all-but-first": i > 0}[pattern]
+            return Missing if gone else value
+        pn = FROMRES_PATTERNS[(g + shift) % len(FROMRES_PATTERNS)]
+        px = FROMRES_PATTERNS[(2 * g + shift + 3) % len(FROMRES_PATTERNS)]
+        pr = "first" if shift >= 4 and (g + shift) % 3 == 0 else "none"      # (a group without any reward makes from_result raise)
+        for i in range(n):
+            rows.append([e, l, v, i + 1, (e + l + i) % 2, cell(pr, i, float((e * l + i + v) % 3)), cell(pn, i, "n%d%d" % (g, i)), cell(px, i, 10 * g + i)])
+    ints = Table(columns=["environment_id", "learner_id", "evaluator_id", "index", "action", "reward", "note", "extra"]).insert(rows)
+    envs = Table(columns=["environment_id", "e"]).insert([[k, 100 + k] for k in (0, 1)])
+    lrns = Table(columns=["learner_id", "l"]).insert([[k, 200 + k] for k in (0, 1)])
+    vals = Table(columns=["evaluator_id", "v"]).insert([[k, 300 + k] for k in (0, 1)])
+    return Result(envs, lrns, vals, ints)
+
+
+def fromres_eval(case):
+    from coba.results import Missing
+    from coba.environments import Environments
+    shift = case["fromres"]["shift"]
+    fails, tags = [], ["fromres:shift:%d" % shift]
+    try:
+        result = fromres_result(shift)
+        table = result.interactions
+        hdrs = list(table.columns[4:])
+        scan = {}
+        for row in table:                                   # the full scan: every row of the group, with the cells that hold a value
+            scan.setdefault((row[0], row[1], row[2]), []).append({h: c for h, c in zip(hdrs, row[4:]) if c is not Missing})
+        got = {}
+        for env in Environments.from_result(result):
+            p = env.params
+            key = (p["e"] - 100, p["l"] - 200, p["v"] - 300)
+            got.setdefault(key, []).extend({h: c for h, c in dict(i).items() if c is not Missing} for i in env.read())
+        for key in sorted(set(scan) | set(got)):
+            if scan.get(key) != got.get(key):
+                fails.append(F("B", "fromres_result(%d): for the group (environment, learner, evaluator) = %r Environments.from_result delivers %r; a scan of result.interactions gives %r"
+                               % (shift, key, got.get(key), scan.get(key)), "library-caller:Environments.from_result:delivers-other-rows-than-a-scan"))
+                break
+        tags.append("fromres:groups:%d" % len(scan))
+    except Exception as e:  # noqa
+        fails.append(F("B", "fromres_result(%d) / Environments.from_result raised %s: %s" % (shift, type(e).__name__, e), "library-caller:Environments.from_result:raised:" + errname(e)))
+    return {"fails": fails, "nontrivial": True, "tags": tags, "impl": None, "model": None}
+
+
+def fromres_snippet(case):
+    return ("# harness/props/c17.py: fromres_result / fromres_eval\nimport sys; sys.path.insert(0, 'harness')\nfrom props import c17\n"
+            "print(c17.fromres_eval(%r)['fails'])\n" % (case,))
+
+
+def fromres_corpus():
+    return [{"fromres": {"shift": k}} for k in range(len(FROMRES_PATTERNS))]
+
+
 def lib_snippet(case):
     c = case["lib"]
     return ("# harness/props/c17.py: lib_result / LIB_CALLERS / lib_scan_check\nimport sys; sys.path.insert(0, 'harness')\nfrom props import c17\n"
@@ -2334,6 +2574,42 @@ def lib_corpus():
         for k, index in enumerate(LIB_INDEXES):
             out.append({"lib": {"caller": caller, "index": index, "data": (k + len(caller)) % 3}})
     return out
+
+
+def own_corpus():
+    """Phase 6, deterministic: histories insert, query, insert, query, index, query, insert, groupby, query in which the data given
+    to insert stays the caller's - members that are one object (the same row / dict twice, one list as two columns) and data
+    the caller empties right after the call - on column-less, empty, filled and indexed tables, for the three shapes of insert"""
+    def I(v):
+        return ["i", v]
+    cs = []
+    for init in ("bare", "nocols", "empty", "rows", "ix1", "ix2"):
+        for sh in ("rows", "dicts", "cols"):
+            if sh == "rows" and init in ("bare", "nocols"):
+                continue
+            for own in ("reuse", "shared"):
+                def ins(vals, names):
+                    if sh == "rows":
+                        return {"op": "insert", "t": 0, "shape": "rows", "rows": [[I(v) for v in r] for r in vals], "own": own}
+                    if sh == "dicts":
+                        return {"op": "insert", "t": 0, "shape": "dicts", "rows": [[[c, I(v)] for c, v in zip(names, r)] for r in vals], "own": own}
+                    return {"op": "insert", "t": 0, "shape": "cols", "cols": [[c, [I(r[j]) for r in vals]] for j, c in enumerate(names)], "own": own}
+                ops = []
+                if init in ("rows", "ix1", "ix2"):
+                    ops.append({"op": "insert", "t": 0, "shape": "rows", "rows": [[I(1), I(5)], [I(3), I(4)], [I(1), I(4)]]})
+                if init == "ix1":
+                    ops.append(IX(0, "a"))
+                if init == "ix2":
+                    ops.append(IX(0, "a", "b"))
+                wide = sh != "rows"
+                ops += [ins([(2, 2), (0, 0), (2, 2)], "ab"), W(0, a=V(2)), W(0, b={"d": ["<=", V(2)]}),
+                        ins([(4, 4), (4, 4)], "ac" if wide else "ab"), W(0, a=V(4)), W(0, a=L(0, 4)),
+                        IX(0, "b"), W(0, b=V(2)),
+                        ins([(1, 1, 1), (1, 1, 1), (0, 7, 7)] if wide else [(1, 1), (1, 1), (0, 7)], "abc" if wide else "ab"),
+                        {"op": "groupby", "t": 0, "level": 0, "select": "count"}, W(0, b=V(0)), W(0, b={"d": [">", V(1)]})]
+                cs.append({"init": {"kind": "columns", "columns": [], "bare": True} if init == "bare" else {"kind": "columns", "columns": [] if init == "nocols" else ["a", "b"]},
+                           "ops": json.loads(json.dumps(ops))})
+    return cs
 
 
 class C17(Property):
@@ -2369,7 +2645,12 @@ class C17(Property):
             "Environments.from_result, Result.copy / filter_* / where* / raw_learners / raw_contrast / table accessors; after the call (returned or raised) the user's table must hold the same rows, in the order of the index it claims, "
             "and every where (= != < <= > >= in !in on every index column, values present / below / above) and groupby level must equal a scan of its rows; signature library-caller:<function>:<what>; "
             "Phase 5 goal 2: at the end of every non-stale case len(t), t.to_dicts() and every column object t[c] (len, list, [0]) of each live table / view nobody mutated under are compared with Table.len / toDicts / colObs of the model "
-            "(view_observables) and, (B), with list(t) of the same object")
+            "(view_observables) and, (B), with list(t) of the same object" + "; "
+            "Phase 6: the data given to insert stays the caller's - 22 % of the generated inserts are `reuse` (the caller empties its lists / dicts right after the call; the table must go on showing the rows), "
+            "18 % `shared` (members that read the same are ONE object: the same row list / dict twice, one list as two columns of a mapping); every insert must leave its argument as it was and no later operation "
+            "may change it; deterministic family own_corpus (32 histories insert, query, insert, query, index, query, insert, groupby, query); "
+            "round i: family `fromres` (7 cases, (B) only): what Environments.from_result delivers per (environment, learner, evaluator) group vs a plain scan of result.interactions, with columns that are "
+            "Missing on the first / last / middle / every / no row of a group; translator: every sorted(...) / .sort(...) call of class Table is read off the source (Generated/C17Sorts.lean, sort_sites_eq_source)")
     trusted_base = [
         "Python's sorted(): the model's reading 'TypeError iff two non-Missing members are incomparable, else the stable arrangement' (pySorted / pySortedBy) is since Phase 5 a THEOREM about a "
         "comparison sort that only asks the raising `<` (stable insertion sort sortE with pyLt: sorted_comparison_sort_eq, sortedBy_comparison_sort_eq, sorted_raises_iff, for every list, Missing included); "
@@ -2438,6 +2719,8 @@ class C17(Property):
                                "mutated the shared lists (fresh = false: findings C17-F19/F20, stale_cache_counterexample); freshness is never regained in the ghost flag (a later index() through the stale object is not credited)",
         "where_every_live_object": "as multi_inv_reachable plus whereOK for the query; about the cached lohis (effLohis / pwhereWith)",
         "pyLt_class_order": "per comparable class (numbers, strings); since Phase 5 sorted() is a comparison sort in the model (sortE with pyLt) proved equal to pySorted for every list (sorted_comparison_sort_eq)",
+        "insert_keeps_index_order": "insertOK asks that the cells of the index columns (new rows included) can be ordered and are not None: forced also in the repaired tree, "
+                                    "insert_none_next_to_missing_counterexample (finding C17-F21: None < Missing is True, None == Missing too)",
         "copy_independent": "only for where/groupby/copy/listing; insert/index through one object change the others (recorded findings C17-F19/F20)",
     }
 
@@ -2456,12 +2739,20 @@ class C17(Property):
                     "def noBisectOps : List String := []\ndef compareTable : List (String × Option (List Bool) × String × Bool) := []\n"
                     "def extracted : Bool := false\nend Coba.Generated.C17\n" % str(e).replace("\n", " ")[:150])
             notes.append("operator table could NOT be extracted (%s): ops_table_eq_source fails to build" % e)
-        path = os.path.join(lean.LEAN_DIR, "CobaVerif", "Generated", "C17Ops.lean")
-        old = open(path, encoding="utf-8").read() if os.path.exists(path) else None
-        if old != body:
-            os.makedirs(os.path.dirname(path), exist_ok=True)
-            with open(path, "w", encoding="utf-8") as f:
-                f.write(body)
+        try:
+            sites = extract_sorts(repo)
+            body2 = sorts_lean(sites)
+            notes.append("sort calls of class Table extracted: %s" % "; ".join("%s: %s key=%s%s" % (m, w, k, " +other arguments" if e else "") for m, w, k, e in sites))
+        except Exception as e:
+            body2 = sorts_lean([], str(e).replace("\n", " ")[:150])
+            notes.append("sort calls could NOT be extracted (%s): sort_sites_eq_source fails to build" % e)
+        for name, text in (("C17Ops.lean", body), ("C17Sorts.lean", body2)):
+            path = os.path.join(lean.LEAN_DIR, "CobaVerif", "Generated", name)
+            old = open(path, encoding="utf-8").read() if os.path.exists(path) else None
+            if old != text:
+                os.makedirs(os.path.dirname(path), exist_ok=True)
+                with open(path, "w", encoding="utf-8") as f:
+                    f.write(text)
         return notes
 
     def generate(self, rng, tier):
@@ -2599,9 +2890,17 @@ class C17(Property):
         for c in st:
             c["stale"] = True
         cs.extend(st)
+        cs.extend(own_corpus())
+        # corpus/C17/*.json: minimised past failures kept as files (Phase 6: the thorough-tier false alarm C:naive-vs-whereS on a stale view)
+        cdir = os.path.join(os.path.dirname(os.path.dirname(os.path.dirname(os.path.abspath(__file__)))), "corpus", "C17")
+        for fn in sorted(os.listdir(cdir)) if os.path.isdir(cdir) else []:
+            if fn.endswith(".json"):
+                with open(os.path.join(cdir, fn)) as fh:
+                    cs.append(json.load(fh))
         cs.extend(vt_corpus())
         cs.extend(sort_corpus(3))
         cs.extend(lib_corpus())
+        cs.extend(fromres_corpus())
         return cs
 
     def exhaustive(self, tier):
@@ -2664,6 +2963,8 @@ class C17(Property):
             return sort_eval(case, driver)
         if "lib" in case:
             return lib_eval(case)
+        if "fromres" in case:
+            return fromres_eval(case)
         run = Runner(case).run()
         fails, tags = list(run.fails), run.tags
         model = None
@@ -2678,8 +2979,17 @@ class C17(Property):
             ans = driver.ask({"cfg": run.cfg, "init": minit, "ops": run.model_ops})
             model = ans["model"]
             labels = ["init"] + [op["op"] for op in run.model_ops]
+
+            def differ(k, o, m):
+                # groupby(level, [columns]) that names an unknown column AND a level the table has no index column for raises either
+                # way; the code looks the columns up first (KeyError), the model the level (IndexError): one failed lookup, not compared further
+                if (o != m and labels[k] == "groupby" and isinstance(run.model_ops[k - 1].get("select"), dict) and "many" in run.model_ops[k - 1]["select"]
+                        and isinstance(o, dict) and isinstance(m, dict) and {o.get("err"), m.get("err")} == {"KeyError", "IndexError"}):
+                    tags.append("A:groupby:two-failed-lookups")
+                    return False
+                return o != m
             for k, (o, m) in enumerate(zip(run.obs, model) if not case.get("stale") else []):
-                if o != m:
+                if differ(k, o, m):
                     what = "after model op #%d (%s %s): implementation %s, model %s" % (k - 1, labels[k], json.dumps(run.model_ops[k - 1])[:300] if k else "", json.dumps(o)[:400], json.dumps(m)[:400])
                     fails.append(F("A", what, "A:" + labels[k]))
                     break
@@ -2702,7 +3012,7 @@ class C17(Property):
             cached = ans.get("cached")
             if cached:
                 for k, (o, m) in enumerate(zip(run.obs, cached["obs"])):
-                    if o != m:
+                    if differ(k, o, m):
                         fails.append(F("A", "after model op #%d (%s): implementation %s, machine with _lohis caches %s" % (k - 1, labels[k], json.dumps(o)[:400], json.dumps(m)[:400]), "A:cached:" + labels[k]))
                         break
                 if len(cached["obs"]) != len(run.obs):
@@ -2766,13 +3076,19 @@ class C17(Property):
                 tags.append("C:where-hyp-" + ("holds" if sp["hyp"] else "fails"))
                 tags.append("C:where-hyp2-" + ("holds" if sp.get("hyp2") else "fails"))
                 m = model[mk_ + 1]
-                if sp.get("match") is not None and k in run.naive and run.naive[k] is not None:
+                # the two readings below are compared on ONE table: in a stale history the cache-free model (which `spec` comes from)
+                # may hold another table than the code from the first answer of a stale object on (that answer is compared with the
+                # machine with caches only), so they are compared while everything observed so far is what this model shows too
+                same_table = all(a == b for a, b in zip(model[:mk_ + 1], run.obs[:mk_ + 1]))
+                if not same_table:
+                    tags.append("C:spec-on-another-table-than-the-code:skipped")
+                if same_table and sp.get("match") is not None and k in run.naive and run.naive[k] is not None:
                     # `matchCell` (Lean) and the harness' cell-by-cell reading of match must keep the same rows
                     tags.append("C:match-spec-compared")
                     if run.naive[k] != sp["match"]:
                         fails.append(F("C", "op #%d: the harness' reading of match keeps %s, matchCell keeps %s" % (k, json.dumps(run.naive[k])[:300], json.dumps(sp["match"])[:300]), "C:naive-vs-matchCell"))
                 # the Lean specification and the harness' plain evaluation are two readings of the same sentence: they must agree
-                if not any(f["kind"] == "A" for f in fails) and k in run.naive and "pred" in case["ops"][k] and not case["ops"][k].get("pred"):
+                if same_table and not any(f["kind"] == "A" for f in fails) and k in run.naive and "pred" in case["ops"][k] and not case["ops"][k].get("pred"):
                     nv = run.naive[k]
                     if isinstance(sp["spec"], list) and nv is not None and nv != sp["spec"]:
                         fails.append(F("C", "op #%d: the harness' plain evaluation keeps %s, whereS keeps %s" % (k, json.dumps(nv)[:300], json.dumps(sp["spec"])[:300]), "C:naive-vs-whereS"))
@@ -2796,7 +3112,7 @@ class C17(Property):
                 if len(v["probes"]) > 1:
                     yield {"vt": dict(v, probes=v["probes"][:k] + v["probes"][k + 1:])}
             return
-        if "lib" in case:
+        if "lib" in case or "fromres" in case:
             return
         if "sort" in case:
             cells = case["sort"]["cells"]
@@ -2893,6 +3209,8 @@ class C17(Property):
             return sort_snippet(case)
         if "lib" in case:
             return lib_snippet(case)
+        if "fromres" in case:
+            return fromres_snippet(case)
         return plain_snippet(case)
 
 
